@@ -31,6 +31,9 @@ pub struct Scenario {
     pub name: String,
     pub setup: Vec<SOp>,
     pub threads: Vec<Vec<SOp>>,
+    /// known finding F20 is listed as open
+    #[serde(default)]
+    pub f20_open: bool,
 }
 
 struct W {
@@ -184,7 +187,24 @@ fn run_scenario(sc: &Scenario, prefix: Vec<u8>, record_steps: bool) -> SResult {
     }
     violations.sort();
     violations.dedup();
-    SResult { trace: Some(trace), violations, known: vec![], obs, conflicts: vec![] }
+    // F20: a span that closed inside another close's guard (its CloseGuard was dropped while an
+    // enclosing guard of a different close was active on the thread) is never removed from the
+    // registry. Attributed exactly: the library notes the ids of such guards (observation hook).
+    let notes = sched::take_notes();
+    let mut known = vec![];
+    if sc.f20_open {
+        violations.retain(|m| {
+            let id = m.strip_prefix("span ").and_then(|r| r.split_once(" still present in the registry")).and_then(|(n, _)| n.parse::<u64>().ok());
+            match id {
+                Some(id) if notes.iter().any(|(l, v)| *l == "registry.close_guard.closing_while_nested" && *v == id) => {
+                    known.push("F20".to_string());
+                    false
+                }
+                _ => true,
+            }
+        });
+    }
+    SResult { trace: Some(trace), violations, known, obs, conflicts: vec![] }
 }
 
 fn judge(log: &[LEv], marks: &[(usize, String, u64)], own: &Dispatch, v: &mut Vec<String>) {
@@ -241,28 +261,34 @@ fn judge(log: &[LEv], marks: &[(usize, String, u64)], own: &Dispatch, v: &mut Ve
     }
 }
 
+/// schedule of "D7 three generations, three droppers" that exhibits F20
+const F20_WITNESS: [u8; 26] = [2, 2, 2, 2, 2, 2, 0, 0, 0, 0, 0, 0, 0, 0, 0, 0, 0, 1, 1, 1, 1, 1, 1, 1, 1, 1];
+
 pub fn scenarios(tier: Tier) -> Vec<Scenario> {
     use SOp::*;
     let r = || "root".to_string();
     // setup runs on the controller (its pool keeps one handle per span unless it drops it)
     let mut v = vec![
-        Scenario { name: "D1 drop||drop of the last two handles".into(), setup: vec![New(0, r()), Give(0, 0), Give(1, 0), Drop(0)], threads: vec![vec![Drop(0)], vec![Drop(0)]] },
+        Scenario { name: "D1 drop||drop of the last two handles".into(), setup: vec![New(0, r()), Give(0, 0), Give(1, 0), Drop(0)], threads: vec![vec![Drop(0)], vec![Drop(0)]], f20_open: false },
         Scenario {
             name: "D2 child drop (cascade)||parent handle drop".into(),
             setup: vec![New(0, r()), New(1, "of0".into()), Give(0, 1), Give(1, 0), Drop(1), Drop(0)],
             threads: vec![vec![Drop(1)], vec![Drop(0)]],
+            f20_open: false,
         },
-        Scenario { name: "D3 enter,drop,exit||drop".into(), setup: vec![New(0, r()), Give(0, 0), Give(1, 0), Drop(0)], threads: vec![vec![Enter(0), Drop(0), Exit(0)], vec![Drop(0)]] },
-        Scenario { name: "D4 clone,drop,drop||drop".into(), setup: vec![New(0, r()), Give(0, 0), Give(1, 0), Drop(0)], threads: vec![vec![Clone(0), Drop(0), Drop(0)], vec![Drop(0)]] },
+        Scenario { name: "D3 enter,drop,exit||drop".into(), setup: vec![New(0, r()), Give(0, 0), Give(1, 0), Drop(0)], threads: vec![vec![Enter(0), Drop(0), Exit(0)], vec![Drop(0)]], f20_open: false },
+        Scenario { name: "D4 clone,drop,drop||drop".into(), setup: vec![New(0, r()), Give(0, 0), Give(1, 0), Drop(0)], threads: vec![vec![Clone(0), Drop(0), Drop(0)], vec![Drop(0)]], f20_open: false },
         Scenario {
             name: "D5 contextual child under entered parent||parent handle drop".into(),
             setup: vec![New(0, r()), Give(0, 0), Give(1, 0), Drop(0)],
             threads: vec![vec![Enter(0), New(1, "ctx".into()), Drop(0), Exit(0), Drop(1)], vec![Drop(0)]],
+            f20_open: false,
         },
         Scenario {
             name: "D6 Span::current capture||drop".into(),
             setup: vec![New(0, r()), Give(0, 0), Give(1, 0), Drop(0)],
             threads: vec![vec![Enter(0), Drop(0), Cur, Exit(0), Drop(0)], vec![Drop(0)]],
+            f20_open: false,
         },
     ];
     if tier == Tier::Thorough {
@@ -270,11 +296,13 @@ pub fn scenarios(tier: Tier) -> Vec<Scenario> {
             name: "D7 three generations, three droppers".into(),
             setup: vec![New(0, r()), New(1, "of0".into()), New(2, "of1".into()), Give(0, 2), Give(1, 1), Give(2, 0), Drop(2), Drop(1), Drop(0)],
             threads: vec![vec![Drop(2)], vec![Drop(1)], vec![Drop(0)]],
+            f20_open: false,
         });
         v.push(Scenario {
             name: "D8 same span entered on two threads".into(),
             setup: vec![New(0, r()), Give(0, 0), Give(1, 0), Drop(0)],
             threads: vec![vec![Enter(0), Drop(0), Exit(0)], vec![Enter(0), Drop(0), Exit(0)]],
+            f20_open: false,
         });
     }
     v
@@ -316,7 +344,32 @@ pub fn replay(args: &Args, path: &str) -> i32 {
 pub fn run_all(args: &Args, rep: &mut Report) -> (u64, u64, u64) {
     let mut pool = Pool::new(mc::pool::default_workers(), run_schedule, true, Duration::from_secs(20));
     let bound = std::env::var("VERIF_BOUND").ok().and_then(|s| s.parse().ok()).unwrap_or(args.tier.pick(2, 3));
-    let scs = scenarios(args.tier);
+    let f20_open = rep.is_open("F20");
+    let scs: Vec<Scenario> = scenarios(args.tier).into_iter().map(|mut s| {
+        s.f20_open = f20_open;
+        s
+    }).collect();
+    // the recorded witness of F20 (a schedule of D7 with 3 preemptions) is replayed in every tier, so
+    // that the finding is reported while it is open whatever the bound of this run
+    if f20_open {
+        let d7 = scenarios(Tier::Thorough).into_iter().find(|s| s.name.starts_with("D7")).map(|mut s| {
+            s.f20_open = true;
+            s
+        });
+        if let Some(d7) = d7 {
+            let job = SJob { scenario: serde_json::to_string(&d7).unwrap(), prefix: F20_WITNESS.to_vec(), record_steps: false };
+            if let mc::pool::Outcome::Ok(b) = mc::pool::run_isolated(run_schedule, &serde_json::to_vec(&job).unwrap(), Duration::from_secs(30)) {
+                if let Ok(r) = serde_json::from_slice::<SResult>(&b) {
+                    for k in r.known {
+                        rep.known_hit(&k);
+                    }
+                    for m in r.violations {
+                        rep.violation(format!("[{} (witness schedule of F20)] {}", d7.name, m), serde_json::to_value(&job).unwrap());
+                    }
+                }
+            }
+        }
+    }
     let mut tot = (0u64, 0u64, 0u64);
     let mut per = vec![];
     let mut capped = false;
@@ -331,6 +384,11 @@ pub fn run_all(args: &Args, rep: &mut Report) -> (u64, u64, u64) {
         per.push(json!({"scenario": sc.name, "schedules": st.schedules, "by_preemptions": st.by_cost, "distinct_outcomes": st.distinct_obs.len(), "capped": st.capped, "unexplored_prefixes": st.leftover}));
         for m in st.machinery {
             rep.machinery_error(format!("{}: {}", sc.name, m));
+        }
+        for (k, n) in &st.known {
+            for _ in 0..*n {
+                rep.known_hit(k);
+            }
         }
         for (what, job) in st.violations.iter().take(2) {
             rep.violation(format!("[{}] {}", sc.name, what), serde_json::to_value(job).unwrap());
